@@ -125,6 +125,9 @@ func (r *Rule) Equals(newRule *Rule) bool {
 	} else if r.ControlBehavior == Throttling {
 		return r.MaxQueueingTimeMs == newRule.MaxQueueingTimeMs
 	} else {
-		return false
+		// A control behaviour registered with SetTrafficShapingGenerator: which of the behaviour
+		// specific fields it reads is not known here, so all of them must agree. (With 'false' such
+		// a rule was unequal to itself: every load rebuilt its controller and dropped its state.)
+		return r.BurstCount == newRule.BurstCount && r.MaxQueueingTimeMs == newRule.MaxQueueingTimeMs
 	}
 }
